@@ -975,6 +975,18 @@ def r5(facts):
                                     lits = [z for z in walk(f[1] if f[0] == 'truth' else [f[2], f[3]]) if z.get('k') == 'StringLiteral']
                                     if lits and len(lits[0].get('v', lits[0].get('s', ''))) >= p or any(('"' in show(z)) and len(show(z).strip('"')) >= p for z in walk(f[1] if f[0] == 'truth' else [f[2], f[3]]) if z.get('k') == 'StringLiteral'):
                                         ok = True
+                    for f in gf:
+                        # obj.compare(0, n, "literal") == 0: the first characters of obj ARE the literal, so obj is at least that long
+                        n_ = cmp_norm(f) if f[0] == 'cmp' else None
+                        if n_ and n_[0] == '==' and n_[2] == 0 and short(callee_name(strip(n_[1]))) == 'compare' and strip(n_[1]).get('obj') is not None and show(strip(n_[1])['obj']) == obj:
+                            ca = strip(n_[1]).get('a', [])
+                            lits = [z for a_ in ca for z in walk(a_) if z.get('k') == 'StringLiteral']
+                            if len(ca) == 3 and const_of(ca[0]) == 0 and lits and p is not None and len(show(lits[0]).strip('"')) >= p:
+                                ok = True
+                        # obj.size() >= p
+                        if n_ and n_[0] in ('>=', '>') and isinstance(n_[2], int) and p is not None and n_[2] + (1 if n_[0] == '>' else 0) >= p and \
+                                short(callee_name(strip(n_[1]))) in ('size', 'length') and strip(n_[1]).get('obj') is not None and show(strip(n_[1])['obj']) == obj:
+                            ok = True
                     out.append(Obl('C01.R5', fn.name, '%s.substr(%s)' % (obj, show(x['a'][0])), st['loc'], 'discharged' if ok else 'finding',
                                    why='dominated by a prefix comparison that implies size() >= %s' % p if ok else 'std::out_of_range when the text is shorter than %s characters' % show(x['a'][0])))
     if n < 1:
